@@ -603,7 +603,7 @@ struct Runner {
     long sel_base = 0;
 
     struct QLists {
-        std::vector<long> P, P1, C1, P2, C2, CH, LX;
+        std::vector<long> P, P1, C1, P2, C2, C2X, CH, LX;
         std::vector<std::vector<long>> XS;
         bool full = false;
     };
@@ -748,8 +748,8 @@ struct Runner {
             long const M = (long)q.LX.size();
             for (long p1 : q.P1) {
                 for (long c1 : q.C1) {
-                    for (long p2 : {0L, M}) {
-                        for (long c2 : q.C2) {
+                    for (long p2 = 0; p2 <= M; ++p2) {
+                        for (long c2 : q.C2X) {
                             query("compare", "5sv", 0, q.LX, p1, c1, p2, c2, true,
                                 [&](Line& ev) { ri(ev, sgn(h.compare(to_sz(p1), to_sz(c1), v, to_sz(p2), to_sz(c2)))); });
                         }
@@ -841,6 +841,7 @@ struct Runner {
             q.C1  = vec_of(j["C1"]);
             q.P2  = vec_of(j["P2"]);
             q.C2  = vec_of(j["C2"]);
+            q.C2X = vec_of(j["C2X"]);
             q.CH  = vec_of(j["CH"]);
             q.LX  = vec_of(j["LX"]);
             for (auto const& e : j["XS"]) { q.XS.push_back(vec_of(e)); }
@@ -1002,7 +1003,7 @@ struct Runner {
         if (pos < 0 && pos != NPOS_TOKEN) { pos = 0; }
         long cnt = rng.range(0, (long)x.xs.size());
         auto ri  = [](Line& ev, long r) { ev.kv("ret", r); };
-        int w    = (int)rng.range(0, 11);
+        int w    = (int)rng.range(0, 12);
         long p1  = rng.coin(30) ? L : rng.range(0, L);
         long c1  = cand[rng.range(0, 6)];
         if (c1 < 0 && c1 != NPOS_TOKEN) { c1 = 0; }
@@ -1024,6 +1025,16 @@ struct Runner {
         case 5: VH_RQ(find_last_not_of) break;
         case 6: query("find", "pn", 0, x.xs, pos, cnt, 0, 0, true, [&](Line& ev) { ri(ev, from_sz(h.find(xp, to_sz(pos), to_sz(cnt)))); }); break;
         case 7: query("compare", "3str", 0, bchars, p1, c1, 0, 0, true, [&](Line& ev) { ri(ev, sgn(h.compare(to_sz(p1), to_sz(c1), b))); }); break;
+        case 12: {
+            long M  = (long)b.size();
+            long p2 = rng.coin(30) ? M : rng.range(0, M);
+            long c2c[] = {0, 1, M - p2 - 1, M - p2, M - p2 + 1, NPOS_TOKEN, rng.range(0, std::max<long>(M, 1))};
+            long c2 = c2c[rng.range(0, 6)];
+            if (c2 < 0 && c2 != NPOS_TOKEN) { c2 = 0; }
+            query("compare", "5str", 0, bchars, p1, c1, p2, c2, true,
+                [&](Line& ev) { ri(ev, sgn(h.compare(to_sz(p1), to_sz(c1), b, to_sz(p2), to_sz(c2)))); });
+            break;
+        }
         case 8: query("compare", "sv", 0, x.xs, 0, 0, 0, 0, true, [&](Line& ev) { ri(ev, sgn(h.compare(v))); }); break;
         case 9: query("compare", "4pn", 0, x.xs, p1, c1, 0, cnt, true, [&](Line& ev) { ri(ev, sgn(h.compare(to_sz(p1), to_sz(c1), xp, to_sz(cnt)))); }); break;
         case 10: query("contains", "sv", 0, x.xs, 0, 0, 0, 0, true, [&](Line& ev) { ri(ev, (long)h.contains(v)); }); break;
